@@ -72,7 +72,7 @@ def jobs(tier, seed):
             js.append(Job("run.%s%s" % (name, fname), "vlib.stage1:h_stage1",
                           {"shapes": shapes, "opts": dict(fopts, **xo), "checks": base},
                           reach=["C01.no-false-green(events)", "C01.verdict==RunSpec"],
-                          min_paths=5, cost=50, validate=150 if tier == "quick" else 500))
+                          min_paths=1 if fopts.get("dry_run") is True else 5, cost=50, validate=150 if tier == "quick" else 500))
     # selection symbolic (arbitrary tag predicate), outcomes {pass, fail, exception}
     js.append(Job("select.mixed", "vlib.stage1:h_stage1",
                   {"shapes": [F([S(1), O(1, [(1, []), (1, [])]), R([S(1)])])],
